@@ -287,6 +287,9 @@ def run(ctx):
     else:
         f, bi, t = callers[0]
         lim = t["dest"]["local"]
+        r.inst("constructor|limit-operand", sample={"max": f.deep(t["args"][0])})
+        if f.field_path(t["args"][0]) is None or not f.field_path(t["args"][0]).endswith("MemorySettings.max_allowed_memory_usage") or f.deep(t["args"][0]) != "settings.memory_settings.max_allowed_memory_usage":
+            r.violate("constructor|limit-operand", f"the limiter's maximum is `{f.deep(t['args'][0])[:100]}` instead of the configured max_allowed_memory_usage itself: the rewriter could retain / account more than the limit M (e.g. M + preallocated size)", f.loc())
         fs = list(f.calls(r"HtmlRewriteController::from_settings$"))
         ag = [st for b in f.blocks for st in b["stmts"] if st["k"] == "assign" and st["rv"]["k"] == "agg" and st["rv"]["name"].endswith("TransformStreamSettings")]
         r.inst("shared|controller")
@@ -307,6 +310,24 @@ def run(ctx):
         r.inst(nm + "|uses-given-limiter")
         if len(cs) != 1 or "memory_limiter" not in f.describe_operand(cs[0][1]["args"][0]):
             r.violate(nm + "|uses-given-limiter", f"{nm} does not build its container from the limiter it was given", f.loc())
+
+    # ------------------------------------------------------------------ R10.6
+    r = ctx.rule("R10.6", "only unconsumed input is retained: TransformStream::write leaves has_buffered_data = false exactly when the parser consumed the whole chunk (strict `consumed < chunk.len()` for the buffering branch), so completely parsed chunks are never copied into the charged parsing buffer", "E-MIR", floor=3)
+    w = mir.fn("TransformStream::write")
+    cmp_ = [(bi, st["rv"]["op"], w.deep(st["rv"]["a"]), w.deep(st["rv"]["b"])) for bi, b in enumerate(w.blocks) for st in b["stmts"]
+            if st["k"] == "assign" and st["rv"]["k"] == "bin" and st["rv"]["op"] in ("Lt", "Le", "Gt", "Ge", "Eq", "Ne") and "len(chunk)" in w.deep(st["rv"]["a"]) + w.deep(st["rv"]["b"])]
+    r.inst("write|leftover-test", sample={"comparisons": [(op, a[:40], c[:40]) for _, op, a, c in cmp_]})
+    sets = {w.deep(st["rv"]["o"]).split(":")[0]: bi for f2, bi, st in mir.field_writes("TransformStream", "has_buffered_data") if f2 is w and st["rv"]["k"] == "use"}
+    r.inst("write|flag-writes", sample={"writes": sorted(sets)})
+    ok = len(cmp_) == 1 and cmp_[0][1] == "Lt" and "Parser::parse(" in cmp_[0][2] and cmp_[0][3] == "[T]::len(chunk)" and set(sets) == {"const true", "const false"}
+    if ok:
+        sb = cmp_[0][0]
+        t = w.blocks[sb]["term"]
+        false_t = [x[1] for x in t["ts"] if x[0] == 0]
+        ok = t["k"] == "switch" and bool(false_t) and w.dominates(false_t[0], sets["const false"]) and w.dominates(t["else"], sets["const true"]) and not w.dominates(false_t[0], sets["const true"])
+    r.inst("write|flag-cleared-when-all-consumed")
+    if not ok:
+        r.violate("write|flag-cleared-when-all-consumed", f"TransformStream::write no longer clears has_buffered_data exactly when consumed == chunk.len() (test: {[(op, a[:30], c[:30]) for _, op, a, c in cmp_]}): from then on every chunk is appended to the parsing buffer and charged to the memory limiter although nothing needs to be retained, so a run that needs no budget fails under a limit depending on the caller's chunk sizes", w.loc())
 
     ctx.not_decided += ["monotonicity in M and equality of outputs across limits (relations between runs)", "that Vec::try_reserve_exact reserves exactly what was charged (allocator behaviour)"]
     return ("Accounting clauses: charge-dominates-grow on the two limited containers with operand identity, error discipline for every "
